@@ -554,6 +554,10 @@ func buildWaste(r rpc, ids []string, ninit int, ropts []resource.Option) (*insta
 			return ks
 		},
 		del: func(id string) error { return fmt.Errorf("waste records cannot be deleted") },
+		add: func(id string) (string, error) {
+			wr, err := m.AddWasteRecord(&traits.WasteRecord{Id: id, Area: id})
+			return wr.GetId(), err
+		},
 		guarded: func(kind, id string, upsert bool, opt resource.WriteOption) (bool, error) {
 			if kind == "add" {
 				_, err := m.AddWasteRecord(&traits.WasteRecord{Id: id, Area: id}, opt)
